@@ -23,7 +23,13 @@ MANIFEST = {
             'wins), latest_publisher_visible (if the publishers among the ancestors have a latest one the visible '
             'leaf is exactly its publication), unpublished_falls_back (else the variable is absent from the '
             'inbound context and the ContextView lookup goes on to environment / vars / input), '
-            'visible_order_independent (same DAG, parents listed in another order: same visible leaf). Ties: stream '
+            'visible_order_independent (same DAG, parents listed in another order: same visible leaf). WEAKER HYPOTHESIS '
+            '(Props.C05Drop; StablePub2 = a publication may republish the variable WHOLESALE WITHOUT the leaf, '
+            'DropsLow = a task that drops the leaf has seen at most one generation of it; both decidable): '
+            'inv_reachable_dropping, stale_copy_never_visible_dropping, latest_publisher_visible_dropping (the '
+            'latest publisher\'s leaf, or no leaf at all and then a causal ancestor dropped it), and '
+            'drop_after_two_generations_fails (without DropsLow the statement is FALSE of the code: a variant of '
+            'known finding G, replayed on the real functions by the hist stream). Ties: stream '
             'ctx = the REAL functions on generated publish histories over fork/join DAGs, every inbound context in '
             'ALL row orders (joins <=4 parents) vs the model; stream hist = the Lean run of the WHOLE history vs '
             'the real inbound/outbound context of every task + the theorems\' hypothesis StableHist evaluated by '
@@ -42,7 +48,10 @@ MANIFEST = {
             'on every generated history): republication with another shape is known finding G '
             '(later_publish_wins_full_fails), covered by correspondence + monitor; the theorems are about the '
             'data-flow model run (Mistral.Hist), which is tied to the real functions per history (stream hist) and '
-            'to the engine per task execution (stream flow), not to the engine model L5.',
+            'to the engine per task execution (stream flow), not to the engine model L5. DropsLow is a condition on the '
+            'model run (inbound version of the dropping task <= 1), evaluated by Lean and read off the real '
+            'contexts by the hist stream; the purely graph-theoretic form (no two publishers of the leaf, one '
+            'following the other, above a dropping task) is used by the monitor but not proved equivalent.',
 }
 RULE = ('stream ctx: generated publish histories over fork/join DAGs (50% random DAGs with several roots, scalar / '
         'list / nested dict values, leaf values unique per publisher, parents listed in random order; 28% motif '
@@ -57,7 +66,7 @@ RULE = ('stream ctx: generated publish histories over fork/join DAGs (50% random
         'the real engine; one evaluation per completed task execution with >=1 triggering execution; non-trivial = '
         'a join or a publishing task')
 TRUSTED = ['python dict order irrelevant (canonicalised by sorting keys)']
-LEAN_MODULES = ['Mistral.Props.C05', 'Mistral.Props.C05Causal']
+LEAN_MODULES = ['Mistral.Props.C05', 'Mistral.Props.C05Causal', 'Mistral.Props.C05Drop']
 
 
 def correspond(ctx):
